@@ -30,7 +30,7 @@ without reference to what the generators draw). Wave 4 ({waves.get('4',0)} chang
 purpose and is marked as such: those agents were additionally told, in prose, which
 configurations, shapes, sizes and fault kinds the generators draw and were asked for changes such
 a checker would still miss - they are adversarial to the machinery, not independent of it. Wave 5
-({waves.get('5',0)} changes) and waves 6 to 13 ({waves.get('6',0)}+{waves.get('7',0)}+{waves.get('8',0)}+{waves.get('9',0)}+{waves.get('10',0)}+{waves.get('11',0)}+{waves.get('12',0)}+{waves.get('13',0)} changes) went back to the property text alone (plus the list of earlier
+({waves.get('5',0)} changes) and waves 6 to 14 ({waves.get('6',0)}+{waves.get('7',0)}+{waves.get('8',0)}+{waves.get('9',0)}+{waves.get('10',0)}+{waves.get('11',0)}+{waves.get('12',0)}+{waves.get('13',0)}+{waves.get('14',0)} changes) went back to the property text alone (plus the list of earlier
 changes to avoid).
 "yes" = caught by the quick tier of the machinery as it was when the change arrived; "after
 strengthening" = first missed, then caught after the generator or oracle was extended (the last
@@ -77,7 +77,12 @@ habit that hid a class of defects (scaled configurations were written into priva
 one case in four now assigns exported fields only), and value/history classes (element kinds
 uint8/int8/uint64/float32, strings-only rows, header-less codecs - which exposed a genuine
 defect, repaired -, symlinked asset files, one bar delivered twice, every history length from 6
-to 205, a zero displacement, two snapshots with one date, bars without a price in C09).
+to 205, a zero displacement, two snapshots with one date, bars without a price in C09); wave 14
+two scheduler/seam gaps (atomic operations were no scheduling points; the producers always ran
+before the pipeline was built) and one blind spot of the harness itself (it asked every instance
+for its IdlePeriod() before the first Compute, hiding getters that write; nothing ran next to a
+pipeline, hiding package-level state), plus history classes (streams with values queued before
+the call, output directories of earlier runs, CSV-backed backtests over more than 256 rows).
 
 | seeded change | wave | what it does | needs | caught at once? | check and verdict |
 |---|---|---|---|---|---|
